@@ -3,6 +3,7 @@
 //                               (compared with specs/fitsmodel.py: conformance of the assumed contract)
 //   fits_probe read <file>      reads the file with the real library and reports failure or the table's shape, then
 //                               evaluates / re-serialises it and lets the destructor run (replay; built with ASan/UBSan)
+//   fits_probe rewrite <in> <out>   reads <in> with the library and writes it back with the library (C06 conformance)
 //   fits_probe estimate <file> <n_conv_knots> <dim>   prints estimateMemory and sizeof(splinetable<>)
 #include <photospline/splinetable.h>
 #include <cstdio>
@@ -69,7 +70,9 @@ static int readit(const char* path){
 			printf("], \"nknots\": ["); for(uint32_t i=0;i<nd;i++) printf("%s%llu", i?", ":"", (unsigned long long)t.get_nknots(i));
 			printf("], \"naxes\": ["); for(uint32_t i=0;i<nd;i++) printf("%s%llu", i?", ":"", (unsigned long long)t.get_ncoeffs(i));
 			printf("], \"strides\": ["); for(uint32_t i=0;i<nd;i++) printf("%s%llu", i?", ":"", (unsigned long long)t.get_stride(i));
-			printf("], \"naux\": %u}\n", (unsigned)t.get_naux_values());
+			printf("], \"naux\": %u, \"aux\": [", (unsigned)t.get_naux_values());
+			for(size_t i=0;i<t.get_naux_values();i++){ printf("%s[", i?", ":""); jstr(t.get_aux_key(i)); printf(", "); jstr(t.get_aux_value(t.get_aux_key(i))); printf("]"); }
+			printf("]}\n");
 			fflush(stdout);
 			// battery: lookup + evaluation in the middle of the extent, comparison, re-serialisation
 			std::vector<double> x(nd); std::vector<int> c(nd);
@@ -88,6 +91,11 @@ static int readit(const char* path){
 int main(int argc, char** argv){
 	if(argc>=3 && !strcmp(argv[1],"cfitsio")) return probe(argv[2]);
 	if(argc>=3 && !strcmp(argv[1],"read")) return readit(argv[2]);
+	if(argc>=4 && !strcmp(argv[1],"rewrite")){   // read with the library, write with the library
+		try{ photospline::splinetable<> t(argv[2]); t.write_fits(argv[3]); photospline::splinetable<> u(argv[3]);
+			printf("{\"rewritten\": true, \"equal\": %s}\n", (t==u)?"true":"false"); }
+		catch(std::exception& ex){ printf("{\"rewritten\": false, \"what\": "); jstr(ex.what()); printf("}\n"); }
+		return 0; }
 	if(argc>=5 && !strcmp(argv[1],"estimate")){
 		size_t e=photospline::splinetable<>::estimateMemory(argv[2], atoi(argv[3]), atoi(argv[4]));
 		printf("{\"estimate\": %zu, \"sizeof\": %zu}\n", e, sizeof(photospline::splinetable<>)); return 0; }
